@@ -202,6 +202,30 @@ pub fn run<W: Write>(out: &mut W) {
             rows.push(json!([len, t, code(r, |m| m.blindings().map(|b| b == bl2).unwrap_or(false))]));
         }
     }
+    // ... the same for vectors whose ALLOCATION differs from their length (built by push, with_capacity, truncate, drain): the verdict is about
+    // the number of elements only
+    for len in 0usize..=8 {
+        for t in 1usize..=6 {
+            for style in 0..4 {
+                let mut bl: Vec<Scalar> = match style {
+                    0 => Vec::with_capacity(16),
+                    1 => Vec::new(),
+                    2 => Vec::with_capacity(t),
+                    _ => Vec::with_capacity(len + 1),
+                };
+                for k in 0..len {
+                    bl.push(Scalar::from(k as u64 + 11));
+                }
+                if style == 3 {
+                    bl.push(Scalar::from(99u64));
+                    bl.truncate(len);
+                }
+                let bl2 = bl.clone();
+                let r = catch_unwind(AssertUnwindSafe(|| ExtendedMask::assign(crate::grp::ext_degree(t), bl)));
+                rows.push(json!([len, t, code(r, |m| m.blindings().map(|b| b == bl2).unwrap_or(false))]));
+            }
+        }
+    }
     writeln!(out, "{}", json!({"family": "mask", "rows": rows})).unwrap();
 
     // (f) commit
